@@ -529,3 +529,9 @@ for _p in ('C01', 'C02', 'C03', 'C04'):
 for _p in ('C08', 'C10', 'C11'):
     PROPS[_p]['quick'] = PROPS[_p]['quick'] + [solve(15567, direct=1, missing=0, K=2)]
     PROPS[_p]['thorough'] = PROPS[_p]['thorough'] + [solve(155567, direct=1, missing=0, K=3), solve(115567, direct=2, missing=0, K=2, named=0)]
+
+
+# homonymous packages (object cache keyed by import path): C05 / C09 variants of the packages family
+for _p in ('C05', 'C09'):
+    for _t in ('quick', 'thorough'):
+        PROPS[_p][_t] = PROPS[_p][_t] + [sideb(['packages'])]
